@@ -182,7 +182,7 @@ def make_case(ctx, obj, blank=False):
         enc = enc_inst(ctx, inst)       # after the reads: the dictionary of spec attributes is not touched by them
     cn = sorted({type(n).__name__ for _, n in nodes} | {"CURRENCY", "ORIGCURRENCY"})
     nm = "[%s]" % ";".join("(%s,%d)" % (H.cs(c), ctx.handle(c)) for c in cn)
-    head = "LCase %s %s" % (enc, nm)
+    head = "LCase %s %s %s" % (C.cbool(not blank), enc, nm)
     qstr = ["(%s,%s)" % (H.cs(n), enc_outcome(ctx, o, paths)) for n, o in qs]
     SPLIT[len(SPLIT)] = (head, qstr)
     return "%s [%s]" % (head, ";".join(qstr)), qs
@@ -606,7 +606,7 @@ def eval_cases(items):
     pos = {}
     for rank, i in enumerate(order):
         pos[(rank % nsh) * size + rank // nsh] = i
-    filler = 'LCase (hI "STATUS" [] []) [] []'
+    filler = 'LCase false (hI "STATUS" [] []) [] []'
     laid = [items[pos[p]] if p in pos else filler for p in range(nsh * size)]
     bad = C.coq_bad_indices(PROP, "lookup", IMPORTS, OKFUN, "lcase", laid, shard=size, prelude=PRELUDE)
     return sorted(pos[p] for p in bad if p in pos)
